@@ -250,6 +250,16 @@ def invariants(chk: Check, n):
         again = cols_of(tt.make_users_data(covariates=cov, seed=seed, n_users=nu, **p))
         if any(not np.array_equal(again[x], u[x]) for x in want_cols):
             chk.fail("the same seed gives different data on a second call", dict(input=inp))
+        # the generators take nothing from the global configuration: under a configuration in which every default is
+        # changed (also options that share a NAME with a generator parameter: ratio) the same seed gives the same data
+        if i % 3 == 0:
+            with tt.config_context(ratio=3, alpha=0.2, n_obs=(50, 60), power=0.5, my_ratio=7):
+                uc = cols_of(tt.make_users_data(covariates=cov, seed=seed, n_users=nu, **p))
+                sc = cols_of(tt.make_sessions_data(covariates=cov, seed=seed, n_users=nu, **p))
+            if any(not np.array_equal(uc[x], u[x]) for x in want_cols) or any(not np.array_equal(sc[x], s[x]) for x in want_cols):
+                chk.fail("the same seed and parameters give different data under another global configuration",
+                         dict(input=inp, config="ratio=3, alpha=0.2, n_obs=(50, 60), power=0.5",
+                              which="users" if any(not np.array_equal(uc[x], u[x]) for x in want_cols) else "sessions"))
         # a returned frame belongs to the caller: changing it in place must not reach the next call with the same seed
         for rt in ("pandas", "polars"):
             d1 = tt.make_users_data(covariates=cov, seed=seed, n_users=nu, return_type=rt, **p)
